@@ -92,7 +92,20 @@ theorem justified_is_processed (h : trace w entries fuel = some s) (t : Task) (h
     have := sv _ ih
     simp only [Served, hd, hp] at this
     exact dn _ this.2
-  | declRef _ hd hr ih => exact dn _ ((sv _ ih _ hd).2 _ hr)
+  | declRef _ hd hr ih => exact dn _ ((sv _ ih _ hd).2.1 _ hr)
+  | declQRef _ hd hq ih => exact dn _ ((sv _ ih _ hd).2.2 _ hq)
+  | localNs _ hd hp hn ih =>
+    have := sv _ ih
+    simp only [Served, hd, hp, hn] at this
+    exact dn _ this.2
+  | qualNs _ hn ih =>
+    have := sv _ ih
+    simp only [Served, hn] at this
+    exact dn _ this.2
+  | qualLocal _ hn ih =>
+    have := sv _ ih
+    simp only [Served, hn] at this
+    exact dn _ this
 
 /-- **exactly the public API**: a declaration is retained iff the public API calls for it -/
 theorem retained_iff (h : trace w entries fuel = some s) (m name : Nat) :
